@@ -4,6 +4,7 @@ go 1.25.0
 
 require (
 	github.com/cespare/xxhash/v2 v2.3.0
+	github.com/coder/websocket v1.8.14
 	github.com/jensneuse/abstractlogger v0.0.4
 	github.com/wundergraph/astjson v1.1.0
 	github.com/wundergraph/graphql-go-tools/execution v0.0.0-00010101000000-000000000000
@@ -14,7 +15,6 @@ require (
 	connectrpc.com/connect v1.19.2 // indirect
 	github.com/bufbuild/protocompile v0.14.1 // indirect
 	github.com/buger/jsonparser v1.1.2 // indirect
-	github.com/coder/websocket v1.8.14 // indirect
 	github.com/davecgh/go-spew v1.1.2-0.20180830191138-d8f796af33cc // indirect
 	github.com/google/uuid v1.6.0 // indirect
 	github.com/hashicorp/golang-lru v0.5.4 // indirect
